@@ -1,5 +1,6 @@
 """C10 — MarshalJSON emits valid JSON denoting the same document (DESIGN §5.10: T6, E-esc, R1/R2)."""
 from ..e2.checklib import Lemma, run_lemmas
+from ..lemmas_tape import multi_root_lemmas
 from ..e2.intr_chunks import ChunkIntrinsics
 from ..e2.intr_float import RyuStubIntrinsics
 
@@ -42,4 +43,4 @@ def run(ctx):
                "chunk on the implementation and the reference side; their own lemmas: E-esc (here), R1/R2 (C18)")
     ctx.assume("fixed point (parse(text) marshals to text) is derived: text = REF-RENDER(d) and C01-C04; the only chunk whose re-typed "
                "value renders differently is -0.0 -> '-0' -> int64 0 -> '0' (known finding F10, lemma FP.floattext)")
-    run_lemmas(ctx, lemmas(ctx.tier))
+    run_lemmas(ctx, multi_root_lemmas(ctx.tier) + lemmas(ctx.tier))
